@@ -34,7 +34,7 @@ def expHandshake (cert : Cert) (flags : String) : Bool :=
   | _ => false
 
 /-- C06 on the implementation's real transcript -/
-def oracle (mode : Mode) (cert : Cert) (flagStr : String) (hasCreds : Bool) (user pass msg : Bytes)
+def oracle (mode : Mode) (cert : Cert) (flagStr : String) (hasCreds : Bool) (prefs : Option (List Mech)) (user pass msg : Bytes)
     (clearScript tlsScript : List Step)
     (result handshake : String) (clear tls : List Bytes) : Option String :=
   let ehlo := ehloLine (str "c.example")
@@ -82,7 +82,17 @@ def oracle (mode : Mode) (cert : Cert) (flagStr : String) (hasCreds : Bool) (use
       match (tls.filterMap authMechOf).head? with
       | some m => if !off.contains m then some "AUTH-mechanism-not-offered-inside-TLS" else none
       | none => none
-  o5
+  if o5.isSome then o5 else
+  -- O7 (C14): with credentials configured and none of the client's mechanisms advertised by the EHLO reply in effect,
+  -- the send fails and no envelope or message is written
+  let effective : Option Resp := if clear.contains starttlsLine || mode == .wrapper then tlsEhloReply else clearEhloReply
+  let units := if clear.contains starttlsLine || mode == .wrapper then tls else clear
+  match prefs, effective with
+  | some ms, some r =>
+    if r.code.1 == 2 && !(ms.any fun m => (offeredMechs r).contains (toSpecMech m)) && (implOk || units.any isMailUnit) then
+      some "credentials-configured-no-usable-mechanism-but-mail-was-sent"
+    else none
+  | _, _ => none
 
 def bits (s : String) : List Bool := s.toList.map (· == '1')
 
@@ -93,7 +103,7 @@ def tlsOp : List String → String
           hexList clearU, hexList tlsU with
     | some mode, some cert, some user, some pass, some msg, some cs, some ts, some cu, some tu =>
       let hasCreds := mechs != "-"
-      match oracle mode cert flags hasCreds user pass msg cs ts result handshake cu tu with
+      match oracle mode cert flags hasCreds (if hasCreds then parseMechs mechs else none) user pass msg cs ts result handshake cu tu with
       | some e => propfail e
       | none =>
         let fl := bits flags
